@@ -44,7 +44,7 @@ CLAIMS.update({
     'C08': ('Soundness theorem for every accepted byte string: frames for exactly the flagged bits tile the data, each has its declared non-negative length, each '
             'value is the conversion of its own bytes; completeness theorem: every message well framed with convertible values and walkable sub-structure is accepted. '
             'Correspondence + independent strict reference decoder / frame recomputation on mutations near the valid language.',
-            TB + 'DE43_* entries (regex oracle) not modelled', 'Coq proof (monotone pointer, induction over the bit range) + differential correspondence + independent reference decoder', '6/C08'),
+            TB + 'DE43 splitting patterns outside the modelled regex fragment are Unmodelled (translator harness/rx.py via CPython re._parser)', 'Coq proof (monotone pointer, induction over the bit range) + differential correspondence + independent reference decoder', '6/C08'),
     'C12': ('Theorems for every PDS set (any permutation of keys in the dict): chunks are the sub-elements in ascending tag order, 1..999 chars, none split; greedy packing is '
             'optimal among all order-preserving unsplit partitions; chunk i goes to carrier i; walking any group recovers exactly its entries; packaged carriers = 48,62,123,124,125 '
             '(generated obligation). Boundary sweep against the implementation with an independent frame reader.',
@@ -71,11 +71,11 @@ CLAIMS.update({
             'any subset of elements, all admissible lengths, ints, dates in the window, ICC TLV, PDS keys packed into carriers, carriers given directly, PAN / PAN-PREFIX processors): '
             'dumps succeeds, loads of the bytes succeeds, every original key returns its (masked / prefixed) value and every other key is a documented derived one. Domain '
             'hypotheses re-proved for the packaged configuration and all 12 generated codec tables on every run. Correspondence + round-trip oracle on generated messages, each checked to lie in wf_msgb.',
-            TB + 'decimal typed fields, non-canonical date strings and DE43_* regex entries are outside the model (Unmodelled / oracle)',
+            TB + 'decimal typed fields, non-canonical date strings and DE43 patterns outside the modelled regex fragment are outside the model (Unmodelled / oracle); the DE43 pattern is translated from the configuration on every run',
             'Coq proof (field self-delimitation, induction over the bit range, PDS packing/recovery lemmas, strptime/strftime inverse) + differential correspondence', '6/C01'),
     'C02': ('Encode direction: whenever the model encoder returns, the bytes decompose as MTI ++ bitmap ++ body with the bitmap characterised bit by bit (independent bit_set), 16 bytes or 32 lowercase hex '
             'characters, and the body equal to the declarative element-by-element layout (elem_wire / wire_body; for str numerals on int/date elements through their native value); over-length variable '
-            'values are refused with the library error. Decode direction = C08_sound + C01. The implementation is compared byte-for-byte with an independent Python reference encoder and key-for-key with an independent reading.',
+            'values are refused with the library error. Decode direction = C08_sound + C01, and for the merchant field the regex theorems of props/C02de43.v (matcher finds a match iff one exists, captures lie inside the value, every DE43_* entry is a named group and a contiguous piece of the value). The implementation is compared byte-for-byte with an independent Python reference encoder and key-for-key with an independent reading (incl. a non-regex reading of the packaged merchant pattern).',
             TB + 'integers in-width and non-negative', 'Coq proof (loop = declarative layout by induction over the bit list) + differential correspondence + independent reference codec', '6/C02'),
     'C06': ('Theorem: any list of well-formed messages that fit a record, VBS or 1014, any well-formed configuration and codec: the written file reads back (End) as decoded records that agree with the messages (C01 clauses); '
             'generic isolation lemma for interleaved instances. Correspondence on files of 1..300 records incl. frames ending around block boundaries; interleaving runs vs solo runs incl. class attributes.',
@@ -96,7 +96,7 @@ CLAIMS.update({
             'convert to a file that reads under B to exactly the records the input reads to under A (ICC values are the same VBytes) and convert back to the original bytes. '
             'latin_1/cp500/cp037 pairwise compatible and the packaged configuration convertible: generated obligations re-proved each run. Correspondence + direct oracle through the '
             'four tool functions on BytesIO and the command entry points (mci_ipm_encode, mideu convert, mci_ipm_param_encode, paramconv with/without -o) on real temporary files.',
-            TB + 'argparse wiring, file opening and printing are exercised by the run only; DE43_* regex entries outside the model',
+            TB + 'argparse wiring, file opening and printing are exercised by the run only',
             'Coq proof (composition of C01/C02 re-rendering lemmas, C03-C05 framing, codec bijection tables by vm_compute) + differential correspondence through functions and CLI entry points', '6/C19'),
     'C20': ('Theorem for every canonical CSV table (boolean domain canonical_tableb: distinct columns incl. MTI, data elements 2..127 and PDS sub-elements, plain decimal numerals, ISO date-times '
             'in the window, exact-width fixed text, 1..99/999 variable text, empty = absent, fits a record), any well-formed configuration without PAN processors, any codec, blocked or not: '
